@@ -99,10 +99,10 @@ def handle : List String → String
     | none => "bad-op"
   | ["funding.build", _mode, ins, outs, rate, change, dustRate, e1, e2] =>
     match sumCsv? ins true, sumCsv? outs, parseInt? rate, parseInt? dustRate, estTok? e1, estTok? e2 with
-    | some (ti, _), some (to, n), some r, some d, some e1, some e2 =>
+    | some (ti, ni), some (to, n), some r, some d, some e1, some e2 =>
       let ch : Option (Option Bytes) := if change == "None" then some none else (fromHex? change).map some
       match ch with
-      | some ch => renderFunded (fund ⟨ti, to, n, r, ch, d⟩ (fun b => if b then e1 else e2))
+      | some ch => renderFunded (fund ⟨ni, ti, to, n, r, ch, d⟩ (fun b => if b then e1 else e2))
       | none => "bad-op"
     | _, _, _, _, _, _ => "bad-op"
   | "amount.sats_from_btc" :: d => (dec? d).elim "bad-op" fun d => Gen.render (satsFromBtc d)
